@@ -1,127 +1,277 @@
-(* Teardown of one connection (service.stop and the three goroutines of a service) over the
-   abstract blocking states of the goroutines.  What the rings contribute is exactly what C15 proves
-   of them: Close wakes every waiter, later calls return end-of-stream, no mutex stays locked - so a
-   goroutine blocked on a ring of this connection leaves as soon as that ring is closed.  The order
-   of the teardown actions is the one the translator reads off service.stop (Locks.Discipline
-   stop_order_lemma).  Sockets and the scheduler are abstract: a blocked socket call returns once the
-   socket is closed. *)
+(* The life and the teardown of one broker-side connection: the three goroutines of a service
+   (receiver, processor, sender), its two rings, the socket, and the closing sequence service.stop,
+   over abstract blocking states.
+
+   What the rings contribute is exactly what C15 proves of them: Close wakes every waiter and later
+   calls return end-of-stream - so a goroutine blocked on a ring leaves as soon as that ring is
+   closed.  Three facts come from the regenerated tables (tie T1): the goroutine that leaves
+   buffer.ReadFrom / buffer.WriteTo closes its ring, the processor's deferred function calls stop(),
+   and the order of the actions inside stop.  Sockets and the scheduler are abstract: a blocked
+   socket call returns once the socket is closed (by the peer or by stop).
+
+   The teardown can begin in two ways: the peer cuts the socket (then nobody has called stop yet: the
+   receiver and the sender fail on the socket, the rings they close release the processor, and the
+   processor's exit calls stop), or stop is called from outside (Server.Close).  C16 says it
+   completes in both cases, from every buffer condition, unless the processor is inside a delivery
+   to another still-open connection whose peer has stopped reading. *)
 From Base Require Import Tactics.
+From Gen Require Import Tables.
 Open Scope nat_scope.
 
-Inductive recv := RRead | RSpace | RExit.          (* in socket read / waiting for space in `in` *)
-Inductive procs := PData | PWriteOther | PRun | PExit.  (* waiting for data in `in` / inside writeMessage
-                                                           on another connection's outgoing ring *)
-Inductive send := SData | SWrite | SExit.          (* waiting for data in `out` / in socket write *)
-Inductive closer := CStart | CClosedConn | CClosedIn | CClosedOut | CWaited | CUnsubscribed (n : nat) | CWill | CDone.
+Inductive recv := RRead | RSpace | RExit.   (* in a socket read / waiting for space in `in` / gone *)
+Inductive procs :=
+| PData          (* waiting for (or about to take) the next packet of `in` *)
+| PRun           (* processing a packet *)
+| PWriteOwn      (* inside writeMessage on the connection's OWN outgoing ring, waiting for space *)
+| PWriteOther    (* inside writeMessage on another connection's outgoing ring, waiting for space *)
+| PExit.
+Inductive send := SData | SWrite | SExit.   (* waiting for data in `out` / in a socket write / gone *)
+Inductive closer := CIdle | CClosedConn | CClosedIn | CClosedOut | CUnsubscribed (n : nat) | CWill | CDone.
 
 Record st := mkSt {
-  conn_closed : bool; in_done : bool; out_done : bool;
+  conn_closed : bool;          (* the socket is dead: cut by the peer or closed by stop *)
+  in_done : bool; out_done : bool;   (* the rings are closed *)
+  pending : nat;               (* complete packets waiting in `in` *)
+  out_full : bool;             (* `out` holds data and has no room for the packet being written *)
   r : recv; p : procs; s : send; c : closer;
-  other_blocked : bool        (* the other connection's ring the processor writes to is full, its peer
-                                 does not read, and that connection is still open (the excuse of C16) *)
+  other_blocked : bool         (* the other connection's ring the processor writes to is full, its peer does not
+                                  read and that connection is still open: the excuse of C16 *)
 }.
 
-(* one step of some goroutine of the connection, or of the closing goroutine *)
-Inductive step : st -> st -> Prop :=
-| st_close_conn x : c x = CStart ->
-    step x (mkSt true (in_done x) (out_done x) (r x) (p x) (s x) CClosedConn (other_blocked x))
+Definition upd_r x v := mkSt (conn_closed x) (in_done x) (out_done x) (pending x) (out_full x) v (p x) (s x) (c x) (other_blocked x).
+Definition upd_p x v := mkSt (conn_closed x) (in_done x) (out_done x) (pending x) (out_full x) (r x) v (s x) (c x) (other_blocked x).
+Definition upd_s x v := mkSt (conn_closed x) (in_done x) (out_done x) (pending x) (out_full x) (r x) (p x) v (c x) (other_blocked x).
+Definition upd_c x v := mkSt (conn_closed x) (in_done x) (out_done x) (pending x) (out_full x) (r x) (p x) (s x) v (other_blocked x).
+
+Section Steps.
+Variable cap : nat.   (* packets `in` can hold *)
+
+(* one step of a goroutine of the connection or of the goroutine running stop; `ext` marks the steps that need
+   somebody outside the connection (the peer, Server.Close, another connection) *)
+Inductive step : bool -> st -> st -> Prop :=
+(* ----- stop: CAS on closed, close socket, close `in`, close `out`, wait, unsubscribe, will, session ----- *)
+| st_stop_proc x : c x = CIdle -> p x = PExit -> processor_exit_calls_stop = true ->
+    step false x (mkSt true (in_done x) (out_done x) (pending x) (out_full x) (r x) (p x) (s x) CClosedConn (other_blocked x))
+| st_stop_ext x : c x = CIdle ->
+    step true x (mkSt true (in_done x) (out_done x) (pending x) (out_full x) (r x) (p x) (s x) CClosedConn (other_blocked x))
 | st_close_in x : c x = CClosedConn ->
-    step x (mkSt (conn_closed x) true (out_done x) (r x) (p x) (s x) CClosedIn (other_blocked x))
+    step false x (mkSt (conn_closed x) true (out_done x) (pending x) (out_full x) (r x) (p x) (s x) CClosedIn (other_blocked x))
 | st_close_out x : c x = CClosedIn ->
-    step x (mkSt (conn_closed x) (in_done x) true (r x) (p x) (s x) CClosedOut (other_blocked x))
+    step false x (mkSt (conn_closed x) (in_done x) true (pending x) (out_full x) (r x) (p x) (s x) CClosedOut (other_blocked x))
 | st_wait x n : c x = CClosedOut -> r x = RExit -> p x = PExit -> s x = SExit ->
-    step x (mkSt (conn_closed x) (in_done x) (out_done x) (r x) (p x) (s x) (CUnsubscribed n) (other_blocked x))
-| st_unsub x n : c x = CUnsubscribed (S n) ->
-    step x (mkSt (conn_closed x) (in_done x) (out_done x) (r x) (p x) (s x) (CUnsubscribed n) (other_blocked x))
-| st_unsub_done x : c x = CUnsubscribed 0 ->
-    step x (mkSt (conn_closed x) (in_done x) (out_done x) (r x) (p x) (s x) CWill (other_blocked x))
-| st_will x : c x = CWill ->
-    step x (mkSt (conn_closed x) (in_done x) (out_done x) (r x) (p x) (s x) CDone (other_blocked x))
-(* receiver: a socket read returns once the socket is closed; a wait for space returns once `in` is closed;
-   on its way out ReadFrom closes `in` (defer) *)
+    step false x (upd_c x (CUnsubscribed n))
+| st_unsub x n : c x = CUnsubscribed (S n) -> step false x (upd_c x (CUnsubscribed n))
+| st_unsub_done x : c x = CUnsubscribed 0 -> step false x (upd_c x CWill)
+| st_will x : c x = CWill -> step false x (upd_c x CDone)
+(* ----- the peer ----- *)
+| st_peer_cut x : conn_closed x = false ->
+    step true x (mkSt true (in_done x) (out_done x) (pending x) (out_full x) (r x) (p x) (s x) (c x) (other_blocked x))
+(* ----- receiver (buffer.ReadFrom): wait for space, read the socket; on its way out it closes `in` ----- *)
+| st_recv_packet x r' : r x = RRead -> conn_closed x = false -> (r' = RRead \/ r' = RSpace) ->
+    step true x (mkSt (conn_closed x) (in_done x) (out_done x) (S (pending x)) (out_full x) r' (p x) (s x) (c x) (other_blocked x))
 | st_recv_read x : r x = RRead -> conn_closed x = true ->
-    step x (mkSt (conn_closed x) true (out_done x) RExit (p x) (s x) (c x) (other_blocked x))
-| st_recv_space x : r x = RSpace -> in_done x = true ->
-    step x (mkSt (conn_closed x) true (out_done x) RExit (p x) (s x) (c x) (other_blocked x))
-(* processor: a wait for data returns once `in` is closed; a packet in progress finishes; a write to another
-   connection's ring returns when that ring has space again or is closed *)
-| st_proc_data x : p x = PData -> in_done x = true ->
-    step x (mkSt (conn_closed x) (in_done x) (out_done x) (r x) PExit (s x) (c x) (other_blocked x))
-| st_proc_run x : p x = PRun ->
-    step x (mkSt (conn_closed x) (in_done x) (out_done x) (r x) PData (s x) (c x) (other_blocked x))
-| st_proc_write x : p x = PWriteOther -> other_blocked x = false ->
-    step x (mkSt (conn_closed x) (in_done x) (out_done x) (r x) PRun (s x) (c x) (other_blocked x))
-(* sender: a wait for data returns once `out` is closed; a socket write returns once the socket is closed;
-   on its way out WriteTo closes `out` (defer) *)
-| st_send_data x : s x = SData -> out_done x = true ->
-    step x (mkSt (conn_closed x) (in_done x) true (r x) (p x) SExit (c x) (other_blocked x))
-| st_send_write x : s x = SWrite -> conn_closed x = true ->
-    step x (mkSt (conn_closed x) (in_done x) true (r x) (p x) SExit (c x) (other_blocked x)).
+    step false x (mkSt (conn_closed x) (in_done x || readfrom_closes_ring) (out_done x) (pending x) (out_full x) RExit (p x) (s x) (c x) (other_blocked x))
+| st_recv_space x : r x = RSpace -> pending x < cap -> in_done x = false ->
+    step false x (upd_r x RRead)
+| st_recv_space_eof x : r x = RSpace -> in_done x = true ->
+    step false x (upd_r x RExit)
+(* ----- processor: take a packet, process it (a delivery may block on a full ring), leave at end-of-stream ----- *)
+| st_proc_take x n : p x = PData -> pending x = S n -> in_done x = false ->
+    step false x (mkSt (conn_closed x) (in_done x) (out_done x) n (out_full x) (r x) PRun (s x) (c x) (other_blocked x))
+| st_proc_eof x : p x = PData -> in_done x = true ->
+    step false x (upd_p x PExit)
+| st_proc_block_own x : p x = PRun -> out_full x = true -> out_done x = false -> step false x (upd_p x PWriteOwn)
+| st_proc_block_other x : p x = PRun -> step false x (upd_p x PWriteOther)
+| st_proc_done x : p x = PRun -> step false x (upd_p x PData)
+| st_proc_own_space x : p x = PWriteOwn -> out_full x = false -> step false x (upd_p x PData)
+| st_proc_own_eof x : p x = PWriteOwn -> out_done x = true -> step false x (upd_p x PData)
+| st_proc_other x : p x = PWriteOther -> other_blocked x = false -> step false x (upd_p x PData)
+(* ----- sender (buffer.WriteTo): wait for data, write the socket; on its way out it closes `out` ----- *)
+| st_send_take x : s x = SData -> out_full x = true -> out_done x = false -> step false x (upd_s x SWrite)
+| st_send_eof x : s x = SData -> out_done x = true -> step false x (upd_s x SExit)
+| st_send_written x : s x = SWrite -> conn_closed x = false ->
+    step true x (mkSt (conn_closed x) (in_done x) (out_done x) (pending x) false (r x) (p x) SData (c x) (other_blocked x))
+| st_send_fail x : s x = SWrite -> conn_closed x = true ->
+    step false x (mkSt (conn_closed x) (in_done x) (out_done x || writeto_closes_ring) (pending x) (out_full x) (r x) (p x) SExit (c x) (other_blocked x))
+(* ----- the other connection ----- *)
+| st_other x b : step true x (mkSt (conn_closed x) (in_done x) (out_done x) (pending x) (out_full x) (r x) (p x) (s x) (c x) b)
+(* the processor fills its own ring *)
+| st_fill x : p x = PRun -> out_full x = false -> step false x (mkSt (conn_closed x) (in_done x) (out_done x) (pending x) true (r x) (p x) (s x) (c x) (other_blocked x)).
 
-(* remaining work of the teardown *)
-Definition w_recv (x : recv) := match x with RExit => 0 | _ => 1 end.
-Definition w_proc (x : procs) := match x with PExit => 0 | PData => 1 | PRun => 2 | PWriteOther => 3 end.
-Definition w_send (x : send) := match x with SExit => 0 | _ => 1 end.
-Definition w_closer (x : closer) :=
-  match x with CStart => 6 | CClosedConn => 5 | CClosedIn => 4 | CClosedOut => 3 | CWaited => 3
-          | CUnsubscribed n => 2 + n | CWill => 1 | CDone => 0 end.
-Definition measure (x : st) (subs : nat) : nat :=
-  w_recv (r x) + w_proc (p x) + w_send (s x) + (match c x with CStart | CClosedConn | CClosedIn | CClosedOut | CWaited => 3 + subs + w_closer (c x) - 3 | y => w_closer y end).
+Definition init (n : nat) (full oth : bool) : st := mkSt false false false n full RRead PData SData CIdle oth.
 
-(* stop has closed the socket and both rings *)
-Definition stopping (x : st) : Prop :=
-  conn_closed x = true /\ in_done x = true /\ out_done x = true /\ c x = CClosedOut.
+Inductive reachable : st -> Prop :=
+| reach_init n full oth : reachable (init n full oth)
+| reach_step x y e : reachable x -> step e x y -> reachable y.
+
+(* what holds in every reachable state *)
+Definition inv (x : st) : Prop :=
+  (r x = RExit -> in_done x = true) /\
+  (s x = SExit -> out_done x = true) /\
+  (c x <> CIdle -> conn_closed x = true) /\
+  (match c x with CIdle | CClosedConn => True | _ => in_done x = true end) /\
+  (match c x with CIdle | CClosedConn | CClosedIn => True | _ => out_done x = true end) /\
+  (match c x with CUnsubscribed _ | CWill | CDone => r x = RExit /\ p x = PExit /\ s x = SExit | _ => True end).
 
 Definition finished (x : st) : Prop := r x = RExit /\ p x = PExit /\ s x = SExit /\ c x = CDone.
 
-(* C16 progress: once stop has closed socket and rings, some step is enabled until the teardown is
-   complete - unless the processor is inside a delivery to a still-open connection whose peer has stopped
-   reading (the excuse in the property) *)
-Definition C16_progress : Prop := forall x,
-  conn_closed x = true -> in_done x = true -> out_done x = true ->
-  (c x = CClosedOut \/ (exists n, c x = CUnsubscribed n) \/ c x = CWill \/ c x = CDone) ->
-  (c x = CClosedOut \/ (r x = RExit /\ p x = PExit /\ s x = SExit)) ->
-  finished x \/ (p x = PWriteOther /\ other_blocked x = true) \/ exists y, step x y.
+(* the excuse of the property *)
+Definition held_up (x : st) : Prop := p x = PWriteOther /\ other_blocked x = true.
 
-(* C16 bounded: every step decreases the remaining work, which is at most 11 + the number of stored
-   subscriptions when stop begins: the teardown finishes within that many steps *)
+(* ---------- statements ---------- *)
+
+Definition C16_invariant : Prop := forall x, reachable x -> inv x.
+
+(* progress: once the socket is dead - however that came about, whatever the goroutines were doing, whatever is
+   in the rings - some goroutine of the connection can take a step until the teardown is complete, unless the
+   processor is held up by another connection; nothing from outside is needed *)
+Definition C16_progress : Prop := 0 < cap -> forall x,
+  reachable x -> conn_closed x = true ->
+  finished x \/ held_up x \/ exists y, step false x y.
+
+(* bounded: every such step decreases the remaining work, which is bounded by the packets waiting in `in` and the
+   number of stored subscriptions *)
+Definition w_recv (v : recv) := match v with RExit => 0 | RRead => 1 | RSpace => 2 end.
+Definition w_proc (v : procs) := match v with PExit => 0 | PData => 1 | PWriteOwn => 2 | PWriteOther => 2 | PRun => 3 end.
+Definition w_send (v : send) := match v with SExit => 0 | SWrite => 1 | SData => 2 end.
+Definition w_closer (v : closer) :=
+  match v with CIdle => 5 | CClosedConn => 4 | CClosedIn => 3 | CClosedOut => 2 | CUnsubscribed n => 2 + n | CWill => 1 | CDone => 0 end.
 Definition work (x : st) : nat :=
-  w_recv (r x) + w_proc (p x) + w_send (s x) + w_closer (c x).
-Definition C16_bounded : Prop := forall x y, step x y ->
-  (forall n, c x = CClosedOut -> c y = CUnsubscribed n -> True) ->
+  w_recv (r x) + 3 * pending x + w_proc (p x) + (if out_full x then 0 else 1) + w_send (s x) + w_closer (c x).
+
+Definition C16_bounded : Prop := forall x y, conn_closed x = true -> step false x y ->
   match c x, c y with
-  | CClosedOut, CUnsubscribed n => work y <= w_recv (r x) + w_proc (p x) + w_send (s x) + 2 + n
+  | CClosedOut, CUnsubscribed n => work y <= work x + n
   | _, _ => work y < work x
   end.
 
-Lemma progress : C16_progress.
+End Steps.
+
+(* ---------- proofs ---------- *)
+
+Lemma tables_facts : readfrom_closes_ring = true /\ writeto_closes_ring = true /\ processor_exit_calls_stop = true.
+Proof. repeat split; reflexivity. Qed.
+
+Lemma invariant cap : C16_invariant cap.
 Proof.
-  unfold C16_progress, finished. intros x Hc Hi Ho Hcl Hex.
-  destruct (r x) eqn:Er.
-  - right; right. eexists. apply st_recv_read; assumption.
-  - right; right. eexists. apply st_recv_space; assumption.
-  - destruct (p x) eqn:Ep.
-    + right; right. eexists. apply st_proc_data; assumption.
-    + destruct (other_blocked x) eqn:Eb; [right; left; auto|].
-      right; right. eexists. apply st_proc_write; assumption.
-    + right; right. eexists. apply st_proc_run; assumption.
-    + destruct (s x) eqn:Es.
-      * right; right. eexists. apply st_send_data; assumption.
-      * right; right. eexists. apply st_send_write; assumption.
-      * destruct Hcl as [H|[[n H]|[H|H]]].
-        -- right; right. exists (mkSt (conn_closed x) (in_done x) (out_done x) (r x) (p x) (s x) (CUnsubscribed 0) (other_blocked x)).
-           apply st_wait; assumption.
-        -- right; right. destruct n; eexists; [apply st_unsub_done | apply st_unsub]; eassumption.
-        -- right; right. eexists. apply st_will; assumption.
-        -- left. auto.
+  unfold C16_invariant. intros x H. induction H as [n full oth|x y e _ IH Hs].
+  - unfold inv, init; cbn. repeat split; intros; try discriminate; try congruence.
+  - destruct tables_facts as [Hrf [Hwt _]].
+    destruct IH as [I1 [I2 [I3 [I4 [I5 I6]]]]].
+    destruct Hs; unfold inv, upd_r, upd_p, upd_s, upd_c; cbn [conn_closed in_done out_done pending out_full r p s c other_blocked];
+      repeat match goal with H : c _ = _ |- _ => rewrite H in * end;
+      repeat match goal with H : r _ = _ |- _ => rewrite H in * end;
+      repeat match goal with H : p _ = _ |- _ => rewrite H in * end;
+      repeat match goal with H : s _ = _ |- _ => rewrite H in * end;
+      rewrite ?Hrf, ?Hwt, ?Bool.orb_true_r;
+      repeat split; intros; try discriminate; try congruence; auto;
+      try (match goal with |- context [match c ?x with _ => _ end] => destruct (c x) end; auto; try congruence; try tauto);
+      try (destruct I6 as [? [? ?]]; congruence);
+      try (apply I3; discriminate);
+      try (match goal with H : _ \/ _ |- _ => destruct H; congruence end).
 Qed.
 
-Lemma bounded : C16_bounded.
+Lemma progress cap : C16_progress cap.
 Proof.
-  unfold C16_bounded, work. intros x y Hs _.
-  destruct Hs; cbn [r p s c] in *;
-    repeat match goal with H : c _ = _ |- _ => rewrite H; clear H | H : r _ = _ |- _ => rewrite H; clear H
-                      | H : p _ = _ |- _ => rewrite H; clear H | H : s _ = _ |- _ => rewrite H; clear H end;
-    cbn [w_recv w_proc w_send w_closer]; try lia;
-    try (destruct (c x); cbn [w_closer]; lia).
+  unfold C16_progress, finished, held_up. intros Hcap x Hr Hcc.
+  destruct (invariant cap x Hr) as [I1 [I2 [I3 [I4 [I5 I6]]]]].
+  destruct tables_facts as [_ [_ Hps]].
+  destruct (r x) eqn:Er.
+  - right; right. eexists. apply st_recv_read; assumption.
+  - destruct (in_done x) eqn:Ei.
+    + right; right. eexists. apply st_recv_space_eof; assumption.
+    + destruct (Nat.ltb (pending x) cap) eqn:El.
+      * apply Nat.ltb_lt in El. right; right. eexists. apply st_recv_space; eassumption.
+      * apply Nat.ltb_ge in El.
+        destruct (p x) eqn:Ep.
+        -- destruct (pending x) as [|n] eqn:En; [lia|]. right; right. eexists. eapply st_proc_take; eassumption.
+        -- right; right. eexists. apply st_proc_done; assumption.
+        -- destruct (out_full x) eqn:Ef.
+           ++ destruct (out_done x) eqn:Eo.
+              ** right; right. eexists. apply st_proc_own_eof; assumption.
+              ** destruct (s x) eqn:Es.
+                 --- right; right. eexists. apply st_send_take; assumption.
+                 --- right; right. eexists. apply st_send_fail; assumption.
+                 --- specialize (I2 eq_refl). congruence.
+           ++ right; right. eexists. apply st_proc_own_space; assumption.
+        -- destruct (other_blocked x) eqn:Eb; [right; left; auto|].
+           right; right. eexists. apply st_proc_other; assumption.
+        -- (* the processor is gone: stop runs *)
+           destruct (c x) eqn:Ec.
+           ++ right; right. eexists. apply st_stop_proc; assumption.
+           ++ right; right. eexists. apply st_close_in; assumption.
+           ++ congruence.
+           ++ congruence.
+           ++ destruct I6 as [? _]. congruence.
+           ++ destruct I6 as [? _]. congruence.
+           ++ destruct I6 as [? _]. congruence.
+  - specialize (I1 eq_refl).
+    destruct (p x) eqn:Ep.
+    + right; right. eexists. apply st_proc_eof; assumption.
+    + right; right. eexists. apply st_proc_done; assumption.
+    + destruct (out_full x) eqn:Ef.
+      * destruct (out_done x) eqn:Eo.
+        -- right; right. eexists. apply st_proc_own_eof; assumption.
+        -- destruct (s x) eqn:Es.
+           ++ right; right. eexists. apply st_send_take; assumption.
+           ++ right; right. eexists. apply st_send_fail; assumption.
+           ++ specialize (I2 eq_refl). congruence.
+      * right; right. eexists. apply st_proc_own_space; assumption.
+    + destruct (other_blocked x) eqn:Eb; [right; left; auto|].
+      right; right. eexists. apply st_proc_other; assumption.
+    + destruct (c x) eqn:Ec.
+      * right; right. eexists. apply st_stop_proc; assumption.
+      * right; right. eexists. apply st_close_in; assumption.
+      * right; right. eexists. apply st_close_out; assumption.
+      * destruct (s x) eqn:Es.
+        -- right; right. eexists. apply st_send_eof; assumption.
+        -- right; right. eexists. apply st_send_fail; assumption.
+        -- right; right. exists (upd_c x (CUnsubscribed 0)). apply st_wait; assumption.
+      * right; right. destruct n; eexists; [apply st_unsub_done | apply st_unsub]; eassumption.
+      * right; right. eexists. apply st_will; assumption.
+      * left. destruct I6 as [? [? ?]]. auto.
+Qed.
+
+Lemma bounded cap : C16_bounded cap.
+Proof.
+  unfold C16_bounded, work. intros x y Hcc Hs.
+  inversion Hs; subst; unfold upd_r, upd_p, upd_s, upd_c; cbn [conn_closed in_done out_done pending out_full r p s c other_blocked] in *;
+    repeat match goal with H : c _ = _ |- _ => rewrite H in * end;
+    repeat match goal with H : r _ = _ |- _ => rewrite H in * end;
+    repeat match goal with H : p _ = _ |- _ => rewrite H in * end;
+    repeat match goal with H : s _ = _ |- _ => rewrite H in * end;
+    repeat match goal with H : pending _ = _ |- _ => rewrite H in * end;
+    repeat match goal with H : out_full _ = _ |- _ => rewrite H in * end;
+    cbn [w_recv w_proc w_send w_closer]; try congruence; try lia;
+    try (destruct (c x); cbn [w_closer]; lia);
+    try (destruct (out_full x); destruct (c x); cbn [w_closer]; lia).
+Qed.
+
+(* non-vacuity: the state of the seeded scenario - the peer is gone, the processor blocked on the connection's own
+   full outgoing ring, the sender in a socket write, the receiver waiting for space - is reachable, and from it
+   the teardown proceeds *)
+Example own_ring_full_reachable :
+  reachable 1 (mkSt true false false 1 true RSpace PWriteOwn SWrite CIdle false).
+Proof.
+  pose (s0 := init 0 false false).
+  pose (s1 := mkSt false false false 1 false RRead PData SData CIdle false).
+  pose (s2 := mkSt false false false 2 false RSpace PData SData CIdle false).
+  pose (s3 := mkSt false false false 1 false RSpace PRun SData CIdle false).
+  pose (s4 := mkSt false false false 1 true RSpace PRun SData CIdle false).
+  pose (s5 := mkSt false false false 1 true RSpace PRun SWrite CIdle false).
+  pose (s6 := mkSt false false false 1 true RSpace PWriteOwn SWrite CIdle false).
+  assert (H0 : reachable 1 s0) by apply reach_init.
+  assert (H1 : reachable 1 s1).
+  { eapply reach_step; [exact H0|]. apply (st_recv_packet 1 s0 RRead); auto. }
+  assert (H2 : reachable 1 s2).
+  { eapply reach_step; [exact H1|]. apply (st_recv_packet 1 s1 RSpace); auto. }
+  assert (H3 : reachable 1 s3).
+  { eapply reach_step; [exact H2|]. apply (st_proc_take 1 s2 1); reflexivity. }
+  assert (H4 : reachable 1 s4).
+  { eapply reach_step; [exact H3|]. apply (st_fill 1 s3); reflexivity. }
+  assert (H5 : reachable 1 s5).
+  { eapply reach_step; [exact H4|]. apply (st_send_take 1 s4); reflexivity. }
+  assert (H6 : reachable 1 s6).
+  { eapply reach_step; [exact H5|]. apply (st_proc_block_own 1 s5); reflexivity. }
+  eapply reach_step; [exact H6|]. apply (st_peer_cut 1 s6); reflexivity.
 Qed.
